@@ -288,7 +288,8 @@ def validate(ctx, traces, tag="Trace"):
                     xs = []
                 want = v["want"][0] / v["want"][1]
                 if xs and all(abs(x - want) <= TOL * max(1.0, abs(want)) for x in xs):
-                    raise Machinery(f"rationalisation artefact in trace {p['tid']} step {k}: floats {xs} vs {v['want']}")
+                    ctx.artefact(f"C20 trace {p['tid']} step {k}: floats {xs} vs {v['want']}")
+                    continue
             api = "to_joint_gaussian" if st["ev"] == "joint" else "predict"
             feats = {} if st["ev"] == "joint" else {"missing": "1" if len(t["nodes"]) - len(st["observed"]) == 1 else ">=2"}
             if v["clause"] == "predict.cov":
